@@ -180,6 +180,42 @@ fn strat(max_len: usize) -> impl Strategy<Value = BytesCase> {
     })
 }
 
+
+/// libFuzzer leg: [level][flags][alphabet mode][bytes...]
+pub fn from_fuzz(data: &[u8]) -> BytesCase {
+    use crate::fuzzing::Cur;
+    let mut c = Cur::new(data);
+    let level = 1 + (c.u8() % 19) as i32;
+    let flags = c.u8();
+    let mode = c.u8() % 8;
+    let body = c.rest();
+    let data: Vec<u8> = body
+        .iter()
+        .map(|&b| match mode {
+            0 => b & 3,
+            1 => b % 5,
+            2 => b % 6,
+            3 => b % 7,
+            4 => b % 16,
+            5 => b % 17,
+            6 => if b < 250 { b & 3 } else { b },
+            _ => b,
+        })
+        .collect();
+    BytesCase { data, level, zstd: flags & 3 != 3, fresh_thread: flags & 0xfc == 0xfc }
+}
+
+pub fn fuzz_seeds() -> Vec<Vec<u8>> {
+    let mut r = SplitMix::new(0xC12);
+    let mut out = Vec::new();
+    for (mode, n) in [(0u8, 257usize), (1, 100), (2, 64), (4, 33), (7, 50), (0, 3)] {
+        let mut v = vec![16u8, 0, mode];
+        v.extend((0..n).map(|i| if mode == 0 && i % 3 != 0 { (i % 7) as u8 } else { r.next() as u8 }));
+        out.push(v);
+    }
+    out
+}
+
 fn all_strings(alphabet: &'static [u8], max_len: usize, zstd_every: u64) -> impl Iterator<Item = BytesCase> {
     let a = alphabet.len() as u64;
     (0..=max_len).flat_map(move |len| {
@@ -222,6 +258,9 @@ pub fn run(ctx: &Ctx, stats: &mut Stats) {
     run_exhaustive(ctx, stats, "exh-boundaries", boundary_strings(), &check);
     let n = ctx.tier.pick(24_000, 400_000);
     run_prop(ctx, stats, "random", n, strat(100_000), &check);
+    if ctx.tier == Tier::Thorough || std::env::var("VERIF_FUZZ").is_ok() {
+        crate::fuzzing::run_stage(ctx, stats, "pack", ctx.tier.pick(200_000, 3_000_000));
+    }
 }
 
 pub fn replay(_ctx: &Ctx, _stage: &str, case: &Value) -> Report {
